@@ -432,7 +432,7 @@ def model_phase(ctx, by_tree):
     if ctx.quick:
         gen("all_faults_tree_B3", ["q"], 3, [3], ["B"], True, False, per=1)
     if not ctx.quick:
-        gen("all_chunkings_tree_B4", ["q"], 4, [99], ["B"], False, False, per=2, max_log2=14)
+        gen("all_chunkings_tree_B4", ["q"], 4, [99], ["B"], False, False, per=1, max_log2=14)
         gen("all_faults_tree_B3", ["q"], 3, [3], ["B"], True, False, per=2)
         for k, (tr, co) in enumerate([(False, True), (True, False)]):
             gen("sim_%s" % ("trunc" if tr else "intact"), ["cex", "mix", "file511", "file513"], 4, [4, 99], ["A", "B"], tr, co,
